@@ -88,6 +88,33 @@ fn sys_read_all(fd: RawFd) -> Vec<u8> {
     out
 }
 
+/// bytes waiting to be read on a pipe / socket descriptor
+fn fionread(fd: RawFd) -> usize {
+    let mut n: libc::c_int = 0;
+    let r = unsafe { libc::ioctl(fd, libc::FIONREAD, &mut n) };
+    if r < 0 { 0 } else { n as usize }
+}
+
+/// spin (yielding, then sleeping) until `cond` holds or `bound` expired
+fn wait_until(bound: Duration, mut cond: impl FnMut() -> bool) -> bool {
+    let t0 = std::time::Instant::now();
+    let mut spins = 0u32;
+    loop {
+        if cond() {
+            return true;
+        }
+        if t0.elapsed() > bound {
+            return false;
+        }
+        spins += 1;
+        if spins < 200 {
+            std::thread::yield_now();
+        } else {
+            std::thread::sleep(Duration::from_micros(200));
+        }
+    }
+}
+
 fn poll_ready(fd: RawFd, events: i16) -> bool {
     let mut p = libc::pollfd { fd, events, revents: 0 };
     let r = unsafe { libc::poll(&mut p, 1, 0) };
@@ -468,6 +495,10 @@ struct World {
     /// push order of outstanding non-lazy keys
     live: Vec<usize>,
     job_token: u64,
+    /// io_uring: submission-queue entries the harness knows to be staged but not yet handed to the kernel
+    /// (operation ids; `usize::MAX` = an AsyncCancel), and the queue's size
+    staged: Vec<usize>,
+    sq_cap: usize,
 }
 
 thread_local! {
@@ -484,7 +515,7 @@ impl World {
         } else {
             Backend::Pro(pb.build().map_err(|e| format!("{e:?}"))?)
         };
-        Ok(World { p, iour, fut, chans: BTreeMap::new(), ops: BTreeMap::new(), live: vec![], job_token: 0 })
+        Ok(World { p, iour, fut, chans: BTreeMap::new(), ops: BTreeMap::new(), live: vec![], job_token: 0, staged: vec![], sq_cap: (cap.max(1) as usize).next_power_of_two() })
     }
 
     /// the channel whose kernel object (and stream bookkeeping) descriptor `c` refers to
@@ -600,6 +631,9 @@ impl World {
         let mut rec = OpRec { kind, pending: None, lazy, wakers: vec![], gate, done: false, dropped: false, cancel_requested: false, polled_wakes: 0 };
         match pushed {
             Pushed::Pending(pd, cw) => {
+                if !matches!(rec.kind, Kind::Job(_)) {
+                    self.note_staged(id);
+                }
                 rec.pending = Some(pd);
                 rec.wakers.extend(cw);
                 if !lazy {
@@ -797,6 +831,7 @@ impl World {
     }
 
     fn poll_once(&mut self, t: Duration) -> String {
+        self.staged.clear();
         match &mut self.p {
             Backend::Rt(rt) => {
                 rt.poll_with(Some(t));
@@ -811,9 +846,49 @@ impl World {
         }
     }
 
+    /// has the kernel been handed this operation?  (polling driver: there is nothing to hand over)
+    fn submitted(&self, id: usize) -> bool {
+        !self.iour || !self.staged.contains(&id)
+    }
+
+    /// io_uring bookkeeping of the harness: one more SQE is staged (a full queue is submitted first)
+    fn note_staged(&mut self, id: usize) {
+        if self.iour {
+            if self.staged.len() >= self.sq_cap {
+                self.staged.clear();
+            }
+            self.staged.push(id);
+        }
+    }
+
+    fn ring_fd(&self) -> RawFd {
+        match &self.p {
+            Backend::Pro(p) => compio_driver::AsRawFd::as_raw_fd(p),
+            Backend::Rt(rt) => compio_driver::AsRawFd::as_raw_fd(rt),
+        }
+    }
+
+    /// the pending operations of the given direction on kernel object `root` that the kernel has been handed
+    fn armed_ops(&self, root: usize, read: bool) -> Vec<usize> {
+        self.ops
+            .iter()
+            .filter(|(id, o)| {
+                o.pending.is_some()
+                    && self.submitted(**id)
+                    && match &o.kind {
+                        Kind::Read(c, _) | Kind::Recv(c, _) | Kind::RMulti(c) => read && self.root(*c) == root,
+                        Kind::Write(c, _) | Kind::Send(c, _) => !read && self.root(*c) == root,
+                        _ => false,
+                    }
+            })
+            .map(|(id, _)| *id)
+            .collect()
+    }
+
     /// `poll(None)`: blocks until the driver has something to deliver.  A watchdog thread wakes the driver
     /// after `bound`; returns true when only the watchdog ended the wait.
     fn poll_blocking(&mut self, bound: Duration) -> bool {
+        self.staged.clear();
         let waker = match &self.p {
             Backend::Pro(p) => p.waker(),
             Backend::Rt(rt) => rt.waker(),
@@ -1093,20 +1168,64 @@ fn exec_inner(case: &Case) -> Exec {
                         "ok".into()
                     }
                     ["feed", c, h] => {
-                        let ch = wd.chans.get_mut(&c.parse().unwrap()).unwrap();
+                        let c: usize = c.parse().unwrap();
                         let b = unhex(h);
+                        // io_uring: a read the kernel holds armed on this object consumes the data as soon as it
+                        // arrives.  The model assumes that has happened when the next line runs, so wait for it
+                        // (bounded) instead of relying on the completion being synchronous with `write(2)`.
+                        let (near, unread0, delivered) = {
+                            let ch = &wd.chans[&c];
+                            (ch.near.as_raw_fd(), fionread(ch.near.as_raw_fd()), ch.segments.iter().map(|s| s.len()).sum::<usize>())
+                        };
+                        let armed = if wd.iour && !wd.chans[&c].lossy { wd.armed_ops(c, true) } else { vec![] };
+                        let in_flight = wd.chans[&c].fed.len() as isize - delivered as isize - unread0 as isize;
+                        let ch = wd.chans.get_mut(&c).unwrap();
                         let n = sys_write(ch.far.as_ref().unwrap().as_raw_fd(), &b);
                         assert_eq!(n, b.len() as isize, "harness: feed was partial");
                         ch.fed.extend_from_slice(&b);
+                        if !b.is_empty() && unread0 == 0 && in_flight == 0 {
+                            if let Some(id) = armed.first() {
+                                let multi = matches!(wd.ops[id].kind, Kind::RMulti(_));
+                                if !wait_until(Duration::from_secs(3), || {
+                                    let u = fionread(near);
+                                    if multi { u == 0 } else { u < b.len() }
+                                }) {
+                                    ex.tag("wait-bound-expired:feed");
+                                }
+                            }
+                        }
                         "ok".into()
                     }
                     ["eof", c] => {
-                        let ch = wd.chans.get_mut(&c.parse().unwrap()).unwrap();
+                        let c: usize = c.parse().unwrap();
+                        // io_uring: an armed read on an empty object completes with 0 at end of stream; the only
+                        // thing to observe is the completion queue becoming non-empty
+                        let ring = wd.ring_fd();
+                        // (bytes fed but neither delivered nor unread = a completion the harness has not popped
+                        // yet, e.g. of a lazy key: then that read is not armed any more)
+                        let in_flight = {
+                            let ch = &wd.chans[&c];
+                            ch.fed.len() as isize
+                                - ch.segments.iter().map(|s| s.len()).sum::<usize>() as isize
+                                - fionread(ch.near.as_raw_fd()) as isize
+                        };
+                        let watch = wd.iour
+                            && !wd.chans[&c].lossy
+                            && in_flight == 0
+                            && !poll_ready(ring, libc::POLLIN)
+                            && fionread(wd.chans[&c].near.as_raw_fd()) == 0
+                            && !wd.armed_ops(c, true).is_empty();
+                        let ch = wd.chans.get_mut(&c).unwrap();
                         match ch.kind {
                             ChanKind::Sock => unsafe {
                                 libc::shutdown(ch.far.as_ref().unwrap().as_raw_fd(), libc::SHUT_WR);
                             },
                             _ => ch.far = None,
+                        }
+                        if watch {
+                            if !wait_until(Duration::from_secs(3), || poll_ready(ring, libc::POLLIN)) {
+                                ex.tag("wait-bound-expired:eof");
+                            }
                         }
                         "ok".into()
                     }
@@ -1136,8 +1255,29 @@ fn exec_inner(case: &Case) -> Exec {
                         "ok".into()
                     }
                     ["drain", c] => {
-                        let ch = wd.chans.get_mut(&c.parse().unwrap()).unwrap();
-                        let all = sys_read_all(ch.far.as_ref().unwrap().as_raw_fd());
+                        let c: usize = c.parse().unwrap();
+                        let far = wd.chans[&c].far.as_ref().unwrap().as_raw_fd();
+                        let mut all = sys_read_all(far);
+                        // io_uring: a write / send the kernel holds armed on this object is retried as soon as
+                        // there is room, and the model counts what it writes into this drain.  Wait (bounded)
+                        // for that write to land instead of relying on it being synchronous with `read(2)`.
+                        if wd.iour {
+                            for id in wd.armed_ops(c, false) {
+                                let payload = match &wd.ops[&id].kind {
+                                    Kind::Write(_, d) | Kind::Send(_, d) => d.clone(),
+                                    _ => continue,
+                                };
+                                let seen = |hay: &[u8]| payload.is_empty() || hay.windows(payload.len()).any(|w| w == &payload[..]);
+                                if seen(&wd.chans[&c].drained) || seen(&all) {
+                                    continue;
+                                }
+                                if !wait_until(Duration::from_secs(3), || poll_ready(far, libc::POLLIN)) {
+                                    ex.tag("wait-bound-expired:drain");
+                                }
+                                all.extend(sys_read_all(far));
+                            }
+                        }
+                        let ch = wd.chans.get_mut(&c).unwrap();
                         let filler = all.iter().any(|b| *b == FILLER);
                         let payload: Vec<u8> = all.into_iter().filter(|b| *b != FILLER).collect();
                         ch.drained.extend_from_slice(&payload);
@@ -1238,6 +1378,7 @@ fn exec_inner(case: &Case) -> Exec {
                         }
                     }
                     ["flush"] => {
+                        wd.staged.clear();
                         match &mut wd.p {
                             Backend::Pro(p) => {
                                 let _ = p.flush();
@@ -1260,7 +1401,13 @@ fn exec_inner(case: &Case) -> Exec {
                                 if let Some(o) = wd.ops.get_mut(&id) {
                                     o.cancel_requested = true;
                                 }
-                                wd.p.pro().cancel_token(t)
+                                {
+                                    let issued = wd.p.pro().cancel_token(t);
+                                    if issued && wd.iour && wd.staged.len() < wd.sq_cap {
+                                        wd.staged.push(usize::MAX);
+                                    }
+                                    issued
+                                }
                             }
                             None => false,
                         };
